@@ -710,8 +710,18 @@ WITNESSES = [
     (None, "fixes.implicit_dict_keys_values_items", "d = {1: 2}\nprint([_ for k, _ in d.items()])\n", True),
     (None, "fixes.implicit_dict_keys_values_items", "d = {1: 2, 3: 4}\nfor k in d.keys():\n    d[k] = d[k] * 10\nprint(d)\n", True),
     (None, "fixes.implicit_dict_keys_values_items", "d = {1: 2, 3: 4}\nprint([d[k] for k in d.keys()], {k: v for k, v in d.items()})\n", True),
+    # ed9c7d4 repaired the forms that mention the mapping in the loop (method call, passed to a function); what is left of
+    # F02coll-2 needs escape analysis: the mapping changed through an alias or by a callee that reads the global
+    (None, "fixes.implicit_dict_keys_values_items",
+     "d = {1: 2, 3: 4}\nfor k in d.keys():\n    d.update({k: 0})\n    print(d[k])\n", True),
+    (None, "fixes.implicit_dict_keys_values_items",
+     "def reset(m, k):\n    m[k] = 0\nd = {1: 2, 3: 4}\nfor k in d.keys():\n    reset(d, k)\n    print(d[k])\n", True),
+    (None, "fixes.implicit_dict_keys_values_items",
+     "d = {1: 2, 3: 4}\nprint([(d.update({k: 0}), d[k]) for k in d.keys()])\n", True),
+    (None, "fixes.implicit_dict_keys_values_items",
+     "d = {1: 2, 3: 4}\nfor k1 in d.keys():\n    for k2 in d.keys():\n        print(d[k1], d[k2])\n", True),
     ("F02coll-2", "fixes.implicit_dict_keys_values_items",
-     "d = {1: 2, 3: 4}\nfor k in d.keys():\n    d.update({k: 0})\n    print(d[k])\n", None),
+     "d = {1: 2, 3: 4}\ne = d\nfor k in d.keys():\n    e[k] = 0\n    print(d[k])\n", None),
     (None, "fixes.fix_raise_missing_from",
      "def h(error):\n    try:\n        int('x')\n    except ValueError:\n        raise KeyError(error)\ntry:\n    h('my message')\n"
      "except KeyError as e:\n    print(e)\n", True),
